@@ -92,6 +92,239 @@ func fnHigher() *run.Fn {
 	}}
 }
 
+// ---- the exported merge helpers as stand-alone API (entries HighSpatialIDOps / MergeHelperSequence) ----
+// args: units [(id, hDiff, vDiff)], highs [(unit index, hDiff, vDiff)], ops [(receiver, argument)] (indices of highs).
+// Objects are built through the exported constructors, the Merges are performed in order on these very objects (an argument object
+// is reused for several receivers), and every object is read back before the first and after every Merge.
+func helperScript(a []w.Val) w.Val {
+	us, hs, ops := w.AsList(a[0]), w.AsList(a[1]), w.AsList(a[2])
+	var units []*integrate.UnitDividedSpatialID
+	for _, u := range us {
+		f := w.AsList(u)
+		e, err := object.NewExtendedSpatialID(w.AsStr(f[0]))
+		if err != nil {
+			return w.S("bad-script")
+		}
+		units = append(units, integrate.NewUnitDividedSpatialID(e, w.AsInt(f[1]), w.AsInt(f[2])))
+	}
+	var highs []*integrate.HighSpatialID
+	for _, h := range hs {
+		f := w.AsList(h)
+		k := w.AsInt(f[0])
+		if k < 0 || k >= int64(len(units)) {
+			return w.S("bad-script")
+		}
+		highs = append(highs, integrate.NewHighSpatialID(units[k], w.AsInt(f[1]), w.AsInt(f[2])))
+	}
+	sorted := func(l []string) w.Val {
+		c := append([]string{}, l...)
+		sort.Strings(c)
+		return w.Strs(c)
+	}
+	snapshot := func() w.Val {
+		hv := make(w.List, len(highs))
+		for i, h := range highs {
+			hv[i] = w.L(w.S(h.ID()), w.I(integrate.VerifHighThreshold(h)), w.Strs(integrate.VerifHighLowIDs(h)),
+				sorted(integrate.VerifHighUnitIDs(h)), w.B(h.IsDense()))
+		}
+		uv := make(w.List, len(units))
+		for i, u := range units {
+			uv[i] = sorted(integrate.VerifUnitIDs(u))
+		}
+		return w.L(hv, uv)
+	}
+	snaps := w.List{snapshot()}
+	for _, o := range ops {
+		f := w.AsList(o)
+		r, g := w.AsInt(f[0]), w.AsInt(f[1])
+		if r < 0 || g < 0 || r >= int64(len(highs)) || g >= int64(len(highs)) {
+			return w.S("bad-script")
+		}
+		highs[r].Merge(highs[g])
+		snaps = append(snaps, snapshot())
+	}
+	return snaps
+}
+
+func fnHelpers(name string) *run.Fn { return &run.Fn{Name: name, Invoke: helperScript} }
+
+type uSpec struct {
+	e      eid
+	hd, vd int64
+}
+type hSpec struct{ k, hd, vd int64 }
+
+func runHelpers(r *run.Runner, fn string, us []uSpec, hs []hSpec, ops [][2]int64, tags []string) {
+	uv, hv, ov := make(w.List, len(us)), make(w.List, len(hs)), make(w.List, len(ops))
+	for i, u := range us {
+		uv[i] = w.L(w.S(u.e.str()), w.I(u.hd), w.I(u.vd))
+	}
+	for i, h := range hs {
+		hv[i] = w.L(w.I(h.k), w.I(h.hd), w.I(h.vd))
+	}
+	for i, o := range ops {
+		ov[i] = w.L(w.I(o[0]), w.I(o[1]))
+	}
+	r.Run(run.Case{Prop: "C04", Fn: fn, Tags: append([]string{"helpers"}, tags...), Trivial: len(ops) == 0, Args: []w.Val{uv, hv, ov}})
+}
+
+// aggregate scenario: an aggregate of n of the children of t (merged into the first of them) is then used, unchanged, as the
+// ARGUMENT of several receivers that each hold the remaining children's first member; n = all-but-one makes every receiver dense.
+func helperAggregate(r *run.Runner, g *Gen, t eid, a, b int64, nAgg int, nRecv int, tags []string) {
+	ch := allDesc(t, a, b)
+	if nAgg >= len(ch) {
+		nAgg = len(ch) - 1
+	}
+	if nAgg < 1 || nAgg > 5 {
+		// at most 6 units and highs: aggregate members + receivers
+		if nAgg > 5 {
+			nAgg = 5
+		}
+	}
+	if nAgg < 1 {
+		return
+	}
+	if nAgg+nRecv > 6 {
+		nRecv = 6 - nAgg
+	}
+	var us []uSpec
+	var hs []hSpec
+	var ops [][2]int64
+	for i := 0; i < nAgg; i++ {
+		us = append(us, uSpec{ch[i], 0, 0})
+		hs = append(hs, hSpec{int64(i), a, b})
+		if i > 0 {
+			ops = append(ops, [2]int64{0, int64(i)})
+		}
+	}
+	for j := 0; j < nRecv; j++ {
+		us = append(us, uSpec{ch[len(ch)-1], 0, 0})
+		hs = append(hs, hSpec{int64(nAgg + j), a, b})
+		ops = append(ops, [2]int64{int64(nAgg + j), 0})
+	}
+	runHelpers(r, "MergeHelperSequence", us, hs, ops, append(tags, "aggregate-as-argument", Tag("receivers=%d", nRecv)))
+}
+
+// the seeded scenario literally: aggregate of 7 of the 8 zoom-10 children of 9/0/0/9/0 as argument, receivers holding the 8th child
+// (6 objects at most per script, so the aggregate is built from coarser pieces: 3 quarter columns + 1 cell = 7 cells at zoom 10)
+func helperFixed(r *run.Runner) {
+	for _, f := range []int64{0, -1} {
+		helperSeven(r, eid{9, 0, 0, 9, f}, []string{"fixed"})
+	}
+}
+
+func helperSeven(r *run.Runner, t eid, tags []string) {
+	{
+		f := t.f
+		ch := allDesc(t, 1, 1) // 8 children: (x,y,f) in lexicographic order
+		// columns (x,y) = (0,0),(0,1),(1,0) as 10/x/y/9/f with vDiff 1 (2 cells each) + the cell ch[6]; receivers hold ch[7]
+		us := []uSpec{{eid{t.h + 1, 2 * t.x, 2 * t.y, t.v, f}, 0, 1}, {eid{t.h + 1, 2 * t.x, 2*t.y + 1, t.v, f}, 0, 1}, {eid{t.h + 1, 2*t.x + 1, 2 * t.y, t.v, f}, 0, 1},
+			{ch[6], 0, 0}, {ch[7], 0, 0}, {ch[7], 0, 0}}
+		hs := []hSpec{{0, 1, 0}, {1, 1, 0}, {2, 1, 0}, {3, 1, 1}, {4, 1, 1}, {5, 1, 1}}
+		ops := [][2]int64{{0, 1}, {0, 2}, {0, 3}, {4, 0}, {5, 0}, {5, 0}, {4, 4}}
+		runHelpers(r, "MergeHelperSequence", us, hs, ops, append(append([]string{}, tags...), "aggregate-as-argument"))
+		// the same with single Merges: larger argument into smaller receiver, equal sizes, self-merge
+		runHelpers(r, "HighSpatialIDOps", []uSpec{{t, 1, 1}, {ch[7], 0, 0}}, []hSpec{{0, 0, 0}, {1, 1, 1}}, [][2]int64{{1, 0}}, append(append([]string{}, tags...), "arg-larger"))
+		runHelpers(r, "HighSpatialIDOps", []uSpec{{ch[0], 0, 0}, {ch[7], 0, 0}}, []hSpec{{0, 1, 1}, {1, 1, 1}}, [][2]int64{{1, 0}}, append(append([]string{}, tags...), "equal-sizes"))
+		runHelpers(r, "HighSpatialIDOps", []uSpec{{ch[0], 1, 1}}, []hSpec{{0, 2, 2}}, [][2]int64{{0, 0}}, append(append([]string{}, tags...), "self-merge"))
+	}
+}
+
+func genHelpers(r *run.Runner, g *Gen) {
+	H, V := g.Int63n(34)+1, g.Int63n(34)+1
+	if g.Chance(0.3) {
+		H, V = g.Pick(1, 2, 9, 24, 33, 34), g.Pick(1, 2, 9, 25, 33, 34)
+	}
+	t := eid{H, g.HIndex(H), g.HIndex(H), V, g.VIndex(V)}
+	if g.Chance(0.4) {
+		t.f = g.Pick(-1, 0, -2)
+		if !t.valid() {
+			t.f = -1
+		}
+	}
+	tags := []string{}
+	if t.f < 0 {
+		tags = append(tags, "target-below-ground")
+	}
+	switch g.Intn(5) {
+	case 0, 1:
+		a, b := g.Int63n(2), g.Int63n(2)
+		if a+b == 0 {
+			a, b = 1, 1
+		}
+		if a == 1 && b == 1 && t.h < 35 && t.v < 35 {
+			helperSeven(r, t, tags)
+			return
+		}
+		n := len(allDesc(t, a, b))
+		nAgg := n - 1
+		if g.Chance(0.4) {
+			nAgg = 1 + g.Intn(n-1)
+		}
+		helperAggregate(r, g, t, a, b, nAgg, 1+g.Intn(3), tags)
+	default:
+		// random script: units are descendants of t (or t itself) with small unit differences; highs over them (sometimes two highs
+		// over the same unit: shared map); random receiver/argument pairs incl. self-merge and repeated reuse of one argument
+		nu := 1 + g.Intn(4)
+		var us []uSpec
+		for i := 0; i < nu; i++ {
+			a, b := g.Int63n(2), g.Int63n(2)
+			c := at(g, t, t.h+a, t.v+b)
+			uhd, uvd := g.Int63n(3), g.Int63n(3)
+			if g.Chance(0.06) {
+				uhd = -1
+			}
+			if g.Chance(0.06) {
+				uvd = -1
+			}
+			us = append(us, uSpec{c, uhd, uvd})
+		}
+		nh := nu
+		if g.Chance(0.4) && nu < 6 {
+			nh = nu + 1 + g.Intn(min(2, 6-nu-0))
+			if nh > 6 {
+				nh = 6
+			}
+		}
+		var hs []hSpec
+		for i := 0; i < nh; i++ {
+			k := int64(i)
+			if i >= nu {
+				k = g.Int63n(int64(nu))
+				tags = append(tags, "shared-map")
+			}
+			hs = append(hs, hSpec{k, us[k].e.h - t.h + g.Int63n(2), us[k].e.v - t.v + g.Int63n(2)})
+		}
+		no := 1 + g.Intn(5)
+		var ops [][2]int64
+		arg := g.Int63n(int64(nh))
+		for i := 0; i < no; i++ {
+			rcv := g.Int63n(int64(nh))
+			switch g.Intn(6) {
+			case 0:
+				ops = append(ops, [2]int64{rcv, rcv})
+				tags = append(tags, "self-merge")
+			case 1, 2, 3:
+				ops = append(ops, [2]int64{rcv, arg}) // the same argument object again
+			default:
+				ops = append(ops, [2]int64{rcv, g.Int63n(int64(nh))})
+			}
+		}
+		fn := "MergeHelperSequence"
+		if no == 1 {
+			fn = "HighSpatialIDOps"
+		}
+		runHelpers(r, fn, us, hs, ops, append(tags, "random-script", Tag("ops=%d", no)))
+	}
+}
+
+func min(a, b int) int {
+	if a < b {
+		return a
+	}
+	return b
+}
+
 // ---- voxels ----
 type eid struct{ h, x, y, v, f int64 }
 
@@ -670,7 +903,7 @@ func fixedSequences(r *run.Runner) {
 func init() {
 	Scale["C04"] = 16000
 	Registry["C04"] = func(r *run.Runner, g *Gen, n int) {
-		r.Register(fnMergeExt(), fnMergeSid(), fnHigher())
+		r.Register(fnMergeExt(), fnMergeSid(), fnHigher(), fnHelpers("HighSpatialIDOps"), fnHelpers("MergeHelperSequence"))
 		if n == 0 {
 			return
 		}
@@ -695,6 +928,7 @@ func init() {
 			runExt(r, c, false)
 		}
 		fixedSequences(r)
+		helperFixed(r)
 		for i := 0; i < n; i++ {
 			switch {
 			case i%25 == 3: // malformed member / invalid target zoom
@@ -739,6 +973,8 @@ func init() {
 				}
 				c.tags = []string{"off-grid-id"}
 				runExt(r, c, true)
+			case i%24 == 9: // the exported merge helpers as stand-alone API
+				genHelpers(r, g)
 			case i%10 == 7: // ExtendedSpatialID.Higher alone
 				id, h, v := g.ValidEID()
 				hd, vd := g.ZoomBelow(h), g.ZoomBelow(v)
